@@ -16,6 +16,13 @@ Streams
   entity  : generated modules/procedures rendered both ways, parsed by the real
             `FortranSourceFile`; oracle: equal entity trees (names, kinds, arguments,
             variables, types, calls, uses, doc lines).
+
+Variant.  The Lean model has three run-time flags (`Ford.Fixed.Variant`: blankShort,
+col7Comment, spacedExcess) = the three edits of fixes/C14-comment-lines-and-overflow-mark.diff.
+`probe_variant()` decides them by running the real `FortranLine` on three probe lines;
+`translate/c14.py` reads them from the shape of the source; both must agree.  A finding class
+whose defect the probed variant no longer has is not a class any more: its layouts are then
+generated in every case (also the `risky=False` ones) and a failure is a VIOLATION.
 """
 from __future__ import annotations
 
@@ -34,6 +41,41 @@ F_INLINE = "C14-comment-on-continued-line"
 F_BETWEEN = "C14-col7-comment-or-blank-line-between-continuation"
 F_SEQBANG = "C14-sequence-field-starting-with-bang"
 F_DOC72 = "C14-doc-comment-text-beyond-col72-kept"
+
+
+class Variant:
+    """Which of the three edits of the candidate repair the code under test has."""
+
+    def __init__(self, blank_short=False, col7_comment=False, spaced_excess=False):
+        self.blank_short = bool(blank_short)
+        self.col7_comment = bool(col7_comment)
+        self.spaced_excess = bool(spaced_excess)
+
+    @property
+    def code(self) -> str:
+        return "".join("1" if b else "0" for b in (self.blank_short, self.col7_comment, self.spaced_excess))
+
+    def __eq__(self, other):
+        return isinstance(other, Variant) and self.code == other.code
+
+    def __repr__(self):
+        return (f"Variant(blankShort={self.blank_short}, col7Comment={self.col7_comment}, "
+                f"spacedExcess={self.spaced_excess})")
+
+
+AS_IS = Variant()
+
+
+def probe_variant() -> Variant:
+    """Decide the variant by running the real `FortranLine` on three probe lines."""
+    from ford.fixed2free2 import FortranLine
+
+    blank = FortranLine(" " * 10 + "\n", True)
+    bang7 = FortranLine(" " * 8 + "! note\n", True)
+    seq = FortranLine("      x = 1".ljust(72) + "SEQ00010\n", True)
+    return Variant(blank_short=not blank.is_regular,
+                   col7_comment=not bang7.is_regular,
+                   spaced_excess=seq.excess_line.startswith("! "))
 
 # --------------------------------------------------------------------------
 # token-level statements (same vocabulary as C02, no ';' / '&' / '!' outside literals)
@@ -68,6 +110,43 @@ DOC_TEXT = [" doc", " it's a doc; with & and 'q", "d2", ' see "x', " doc &"]
 SEQ_TEXT = ["00010", "ABC 123", "SEQ0001'", "X", "        7"]
 CONT_CHARS = "&1+$*.xXcC!23456789-#>|\"'"
 
+# column-structured comment lines: what stands in columns 2-5 (sentinel look-alikes, RCS keywords,
+# label-like digits, a `!` from column 3 on), any character in column 6, and a rest that may look
+# like a statement, a continuation line or go beyond column 72.  Column 2 is never a documentation
+# mark (that would be a doc line, generated separately) and columns 2-5 are never exactly `$omp`
+# (that is the OpenMP sentinel, generated separately).
+COMMENT_F4 = ["$", "$$$", "$$$$", "$Rev", "$Id:", "$om", "$ om", " $om", "$0mp", "$omq", "$mp", "$OM", "$  p",
+              "$&", "$ !", "$1", "    ", "  12", "x", "omp", " !$o", "#if", "$opm", "$OMQ"]
+COMMENT_F4_ALPHABET = "$oOmMpP !0123x&#'"
+COMMENT_REST = ["", " old,", "     old,", " x = 1", " call f(a,", "ision: 1.4 $", "$$$$$$ sep", " private(i)",
+                " parallel do", " end &", " a ! b", " it's", ' "q']
+
+
+def gen_comment_rest(rng):
+    """Text of a comment line from column 2 on (no newline) and the feature names it has."""
+    feats = set()
+    while True:
+        f4 = rng.choice(COMMENT_F4) if rng.random() < 0.7 else "".join(
+            rng.choice(COMMENT_F4_ALPHABET) for _ in range(4))
+        f4 = f4.ljust(4)
+        if f4[0] in MARKS or f4.lower() == "$omp":
+            continue
+        break
+    c6 = rng.choice(CONT_CHARS + "  0")
+    rest = rng.choice(COMMENT_REST)
+    t = f4 + c6 + rest
+    if rng.random() < 0.12:
+        t = t.ljust(rng.randint(60, 75)) + rng.choice(["tail", "!tail", "& more", "SEQ00010"])
+        if len(t) + 1 > 72:
+            feats.add("comment-line-beyond-col72")
+    if f4[0] == "$":
+        feats.add("comment-line-dollar-col2")
+    if not (c6 == " " or c6 == "0"):
+        feats.add("comment-line-col6-mark")
+    if rng.random() < 0.3:
+        t = t.rstrip()
+    return t, feats
+
 
 def squeeze(s: str) -> str:
     """Remove blanks outside character literals."""
@@ -92,9 +171,10 @@ def squeeze(s: str) -> str:
 class Layout:
     """Accumulates the two renderings and the decidable finding classes of one case."""
 
-    def __init__(self, rng, lim, risky=True):
+    def __init__(self, rng, lim, risky=True, var: Variant = AS_IS):
         self.rng = rng
         self.lim = lim
+        self.var = var      # variant of the code under test: decides which layouts are finding classes
         self.risky = risky  # False: stay outside every known finding class by construction
         self.fixed: list[str] = []
         self.free: list[str] = []
@@ -110,7 +190,13 @@ class Layout:
             r = rng.random()
             if r < 0.30:
                 x = rng.choice("cC*!")
-                t = rng.choice(COMMENT_TEXT)
+                if rng.random() < 0.5:
+                    t = rng.choice(COMMENT_TEXT)
+                else:
+                    t, fs = gen_comment_rest(rng)
+                    self.feat |= fs
+                    if between_cont:
+                        self.feat |= {f + "-between-continuation" for f in fs}
                 self.fixed.append(x + t)
                 self.free.append("!" + t)
                 self.feat.add("comment-line-" + {"c": "c", "C": "C", "*": "star", "!": "bang"}[x])
@@ -134,7 +220,8 @@ class Layout:
                 self.feat.add("doc-line-col1")
             elif r < 0.80 and allow_doc:
                 # own-line doc / comment starting in the statement field (column 7+)
-                if between_cont and (not self.risky or rng.random() < 0.6):
+                held = self.var.col7_comment   # the code under test holds such a line back
+                if between_cont and not held and (not self.risky or rng.random() < 0.6):
                     continue
                 ind = " " * rng.randint(6, 12)
                 if rng.random() < 0.6:
@@ -149,19 +236,29 @@ class Layout:
                     self.free.append(ind + "!" + t)
                     self.feat.add("comment-line-col7")
                 if between_cont:
-                    self.classes.add(F_BETWEEN)
+                    self.feat.add("col7-line-between-continuation")
+                    if not held:
+                        self.classes.add(F_BETWEEN)
             elif r < 0.88:
-                if between_cont and (not self.risky or rng.random() < 0.6):
+                held = self.var.blank_short
+                if between_cont and not held and (not self.risky or rng.random() < 0.6):
                     continue
-                self.fixed.append(" " * rng.randint(6, 20))
+                self.fixed.append(" " * rng.choice([6, 7, 8, 12, 20, 72, 73, 80]))
                 self.free.append("")
                 self.feat.add("long-blank-line")
                 if between_cont:
-                    self.classes.add(F_BETWEEN)
-            elif r < 0.93 and not between_cont:
-                self.fixed.append("#define A 1")
-                self.free.append("#define A 1")
+                    self.feat.add("long-blank-line-between-continuation")
+                    if not held:
+                        self.classes.add(F_BETWEEN)
+            elif r < 0.93:
+                # preprocessor line: held back by the converter, skipped by the reader (also inside a
+                # continued statement); any column-6 character
+                t = rng.choice(["#define A 1", "#ifdef X", "#endif", "#  if 1", "#", "#if 1 ! c", "#x   &", "#else"])
+                self.fixed.append(t)
+                self.free.append(t)
                 self.feat.add("cpp-line")
+                if between_cont:
+                    self.feat.add("cpp-line-between-continuation")
             elif not between_cont:
                 x = rng.choice("cC*!")
                 self.fixed.append(x + rng.choice(["$omp", "$OMP", "$Omp"]) + " parallel do")
@@ -235,11 +332,14 @@ class Layout:
             # sequence field (columns 73+), only meaningful when the limit is on
             if (lim and len(line) <= 72 and rng.random() < 0.2
                     and (self.risky or inline is None or not inline[1])):
-                seq = rng.choice(SEQ_TEXT) if (not self.risky or rng.random() < 0.85) else rng.choice(["!SEQ", "!! x"])
+                plain = rng.random() < 0.85 if (self.risky or self.var.spaced_excess) else True
+                seq = rng.choice(SEQ_TEXT) if plain else rng.choice(["!SEQ", "!! x", "!> y", "!"])
                 line = line.ljust(72) + seq
                 self.feat.add("sequence-field")
-                if seq.startswith("!") and inline is None:
-                    self.classes.add(F_SEQBANG)
+                if seq.startswith("!"):
+                    self.feat.add("sequence-field-bang")
+                    if inline is None and not self.var.spaced_excess:
+                        self.classes.add(F_SEQBANG)
             if len(line) > 72:
                 self.feat.add("beyond-col72-limit-" + ("on" if lim else "off"))
                 if lim and inline is not None and inline[1]:
@@ -269,8 +369,8 @@ class Layout:
             self.expected.append(("doc", d))
 
 
-def gen_layout_case(rng, lim, risky=True):
-    L = Layout(rng, lim, risky)
+def gen_layout_case(rng, lim, risky=True, var: Variant = AS_IS):
+    L = Layout(rng, lim, risky, var)
     if rng.random() < 0.3:
         L.filler(False, allow_doc=False)
     nst = rng.randint(1, 4)
@@ -352,7 +452,19 @@ BODY = "ab =+'\"!&;(), \t"
 
 def gen_junk_line(rng):
     r = rng.random()
-    if r < 0.25:
+    if r < 0.06:
+        # blank-only line of any length (blanks / tabs), around the thresholds 6 and 72/73
+        n = rng.choice([0, 1, 5, 6, 7, 8, 20, 71, 72, 73, 74, 80])
+        s = "".join(rng.choice("    \t") if rng.random() < 0.1 else " " for _ in range(n))
+    elif r < 0.14:
+        # first non-blank character is a `!` (or not quite) somewhere around column 6/7
+        s = " " * rng.choice([0, 1, 4, 5, 6, 7, 9, 30, 70, 71, 72, 75]) + rng.choice(["!", "!!", "!", "x!", "0!", "\t!"])
+        s += "".join(rng.choice(BODY) for _ in range(rng.choice([0, 3, 10, 70])))
+    elif r < 0.20:
+        # comment-character line with a sentinel look-alike in columns 2-5
+        s = rng.choice("cC*!") + rng.choice(COMMENT_F4 + ["$omp", "$OMP", "$oMp"]).ljust(rng.choice([0, 4]))
+        s += rng.choice(COL6) + "".join(rng.choice(BODY) for _ in range(rng.choice([0, 2, 12, 70])))
+    elif r < 0.40:
         n = rng.randint(0, 8)
         s = "".join(rng.choice(COL1 + COL25) for _ in range(n))
     else:
@@ -373,7 +485,7 @@ def gen_junk_line(rng):
     return s
 
 
-def junk_stream(drv, rng, n, rep, hist):
+def junk_stream(drv, rng, n, rep, hist, var: Variant = AS_IS):
     from ford.fixed2free2 import FortranLine
 
     reqs, exp, kinds = [], [], []
@@ -383,7 +495,7 @@ def junk_stream(drv, rng, n, rep, hist):
             line = gen_junk_line(rng)
             fl = FortranLine(line, lim)
             long_reg = bool(fl.isLong and fl.is_regular)
-            reqs.append(["c14.analyse", "1" if lim else "0", line])
+            reqs.append(["c14.analyse", var.code, "1" if lim else "0", line])
             exp.append(["ok", str(fl), "1" if fl.is_regular else "0", "1" if fl.isContinuation else "0",
                         "1" if long_reg else "0", fl.excess_line])
             k = ("comment" if fl.isComment else "newcomment" if fl.isNewComment else "cpp" if fl.isCppLine
@@ -392,7 +504,7 @@ def junk_stream(drv, rng, n, rep, hist):
             hist["junk-line-" + k] = hist.get("junk-line-" + k, 0) + 1
         else:
             lines = [gen_junk_line(rng) for _ in range(rng.randint(0, 7))]
-            reqs.append(["c14.conv", "1" if lim else "0", *lines])
+            reqs.append(["c14.conv", var.code, "1" if lim else "0", *lines])
             exp.append(["ok", *impl_conv(lines, lim)])
             hist["junk-file"] = hist.get("junk-file", 0) + 1
     got = drv.batch(reqs)
@@ -465,8 +577,8 @@ def gen_program(rng, k):
     return out
 
 
-def render_program(rng, prog, lim, risky=True):
-    L = Layout(rng, lim, risky)
+def render_program(rng, prog, lim, risky=True, var: Variant = AS_IS):
+    L = Layout(rng, lim, risky, var)
     for toks, label in prog:
         L.statement(toks, label)
         L.filler(False)
@@ -580,6 +692,15 @@ def run(tier: str, seed: int, replay: str | None = None) -> int:
     for b in lean.broken():
         rep.tie_broken("proof: " + b)
     common.import_ford()
+    # which variant of the converter is under test: probed on the real code, and read from the source
+    var = probe_variant()
+    try:
+        t = tr.extract(common.REPO)
+        static = Variant(t["blankShort"], t["col7Comment"], t["excessLiteral"] == "! ")
+        if static != var:
+            rep.tie_broken(f"variant: the source reads as {static} but the real FortranLine behaves as {var}")
+    except Exception:
+        pass  # already reported by lean_prove as a translator failure
     rng = random.Random(seed * 7919 + 14)
     drv = Driver()
     quick = tier == "quick"
@@ -605,17 +726,17 @@ def run(tier: str, seed: int, replay: str | None = None) -> int:
                                 rule="replay", samples=[], traces_validated_against_impl=0)
             return rep.finish(lean)
 
-        ev_junk, bad_junk = junk_stream(drv, rng, n_junk, rep, hist)
+        ev_junk, bad_junk = junk_stream(drv, rng, n_junk, rep, hist, var)
         n_bad_corr += bad_junk
 
         # ---------------- layout stream
         cases = []
         for k in range(n_layout):
             lim = rng.random() < 0.65
-            cases.append(gen_layout_case(rng, lim, risky=(k % 4 == 0)))
+            cases.append(gen_layout_case(rng, lim, risky=(k % 4 == 0), var=var))
         nl = [[l + "\n" for l in L.fixed] for L in cases]
-        m_conv = drv.batch([["c14.conv", "1" if L.lim else "0", *ls] for L, ls in zip(cases, nl)])
-        m_read = drv.batch([["c14.read", *MARKS, "1" if L.lim else "0", *ls] for L, ls in zip(cases, nl)])
+        m_conv = drv.batch([["c14.conv", var.code, "1" if L.lim else "0", *ls] for L, ls in zip(cases, nl)])
+        m_read = drv.batch([["c14.read", var.code, *MARKS, "1" if L.lim else "0", *ls] for L, ls in zip(cases, nl)])
         for k, (L, ls, mc, mr) in enumerate(zip(cases, nl, m_conv, m_read)):
             pf, pq = d / f"c{k % 32}.f", d / f"c{k % 32}.f90"
             pf.write_text("".join(ls))
@@ -653,7 +774,7 @@ def run(tier: str, seed: int, replay: str | None = None) -> int:
         for k in range(n_entity):
             lim = rng.random() < 0.65
             prog = gen_program(rng, k)
-            L = render_program(rng, prog, lim, risky=(k % 4 == 0))
+            L = render_program(rng, prog, lim, risky=(k % 4 == 0), var=var)
             pf, pq = d / f"e{k % 8}.f", d / f"e{k % 8}.f90"
             pf.write_text("".join(l + "\n" for l in L.fixed))
             pq.write_text("".join(l + "\n" for l in L.free))
@@ -688,6 +809,9 @@ def run(tier: str, seed: int, replay: str | None = None) -> int:
         correspondence_disagreements=n_bad_corr,
         oracle_failures=n_oracle_fail,
         layout_feature_histogram=dict(sorted(hist.items())),
+        variant_under_test={"blankShort": var.blank_short, "col7Comment": var.col7_comment,
+                            "spacedExcess": var.spaced_excess,
+                            "meaning": "000 = the code as it is; 111 = with fixes/C14-comment-lines-and-overflow-mark.diff"},
     )
     rep.assumptions += [
         "continuation breaks are placed between tokens; fixed-form 'blanks are insignificant inside tokens' and "
